@@ -159,9 +159,27 @@ def minList : List Nat → Option Nat
     | none => some x
 
 /-- `available()`: the shortest queue (0 without queues) -/
-def QR.available (q : QR) : Nat := (minList (q.queues.map List.length)).getD 0
-
 def QR.allZeroWidth (q : QR) : Bool := q.proto.all (fun r => r.dt.bitSize == 0)
+
+/-- the known value of a record of zero bit size (integer types with `min = max`): such records store
+    no data and are never queued — unless the cloud has no other records (`allConstant`) -/
+def constOf (dt : DataType) : Option Value :=
+  match dt with
+  | .scaled min _ _ _ => if dt.bitSize = 0 then some (.scaled min) else none
+  | .integer min _ => if dt.bitSize = 0 then some (.integer min) else none
+  | _ => none
+
+/-- `all_constant`: a non-empty prototype whose records all have zero bit size -/
+def QR.allConstant (q : QR) : Bool := !q.proto.isEmpty && q.proto.all (fun r => (constOf r.dt).isSome)
+
+/-- the queues that count: all of them for an all-constant cloud, otherwise those of the sized records -/
+def QR.countedLengths (q : QR) : List Nat :=
+  if q.allConstant then q.queues.map List.length
+  else ((q.proto.zip q.queues).filter (fun (rec, _) => (constOf rec.dt).isNone)).map (fun (_, qu) => qu.length)
+
+/-- `available`: complete points across the queues (0 without queues) -/
+def QR.available (q : QR) : Nat :=
+  if q.queues.isEmpty then 0 else (minList q.countedLengths).getD 0
 
 /-- value a zero-width record stands for -/
 def zeroValue : DataType → Value
@@ -192,7 +210,7 @@ def readStreams : List Nat → List RBuf → PR → List RBuf → PR × List RBu
     | (r1, none) => (r1, acc.reverse ++ (s :: ss), false)
 
 /-- `parse_byte_streams` for one record -/
-def parseStream (dt : DataType) (minQueue : Nat) (s : RBuf) (q : List Value) : Option (RBuf × List Value) :=
+def parseStream (dt : DataType) (s : RBuf) (q : List Value) : Option (RBuf × List Value) :=
   match dt with
   | .single _ _ =>
     match unpackFixed 32 s with
@@ -203,36 +221,25 @@ def parseStream (dt : DataType) (minQueue : Nat) (s : RBuf) (q : List Value) : O
     | .ok (vs, s') => some (s', q ++ vs.map (fun v => Value.double (UInt64.ofNat v)))
     | _ => none
   | .scaled min max _ _ =>
-    if dt.bitSize = 0 then some (s, q ++ List.replicate (minQueue - q.length) (Value.scaled min))
+    -- nothing to unpack for a record of zero bit size (see `constOf`)
+    if dt.bitSize = 0 then some (s, q)
     else match unpackInts s min max with
       | .ok (vs, s') => some (s', q ++ vs.map Value.scaled)
       | _ => none
   | .integer min max =>
-    if dt.bitSize = 0 then some (s, q ++ List.replicate (minQueue - q.length) (Value.integer min))
+    if dt.bitSize = 0 then some (s, q)
     else match unpackInts s min max with
       | .ok (vs, s') => some (s', q ++ vs.map Value.integer)
       | _ => none
 
-def parseStreams : List Record → Nat → List RBuf → List (List Value) → Option (List RBuf × List (List Value))
-  | [], _, _, _ => some ([], [])
-  | _ :: _, _, [], _ => none
-  | _ :: _, _, _ :: _, [] => none
-  | r :: rs, m, s :: ss, q :: qs => do
-    let (s', q') ← parseStream r.dt m s q
-    let (ss', qs') ← parseStreams rs m ss qs
+def parseStreams : List Record → List RBuf → List (List Value) → Option (List RBuf × List (List Value))
+  | [], _, _ => some ([], [])
+  | _ :: _, [], _ => none
+  | _ :: _, _ :: _, [] => none
+  | r :: rs, s :: ss, q :: qs => do
+    let (s', q') ← parseStream r.dt s q
+    let (ss', qs') ← parseStreams rs ss qs
     pure (s' :: ss', q' :: qs')
-
-/-- the smallest number of items any sized record will have after unpacking -/
-def minQueueSize : List Record → List RBuf → List (List Value) → Option Nat
-  | r :: rs, s :: ss, q :: qs =>
-    let rest := minQueueSize rs ss qs
-    if r.dt.bitSize ≠ 0 then
-      let items := (s.buffer.length * 8 - s.offset) / r.dt.bitSize + q.length
-      match rest with
-      | some m => some (min items m)
-      | none => some items
-    else rest
-  | _, _, _ => none
 
 /-- `advance`: consume one packet.  `(reader', queue reader', ok)` -/
 def QR.advance (q : QR) (r : PR) : PR × QR × Bool :=
@@ -263,8 +270,7 @@ def QR.advance (q : QR) (r : PR) : PR × QR × Bool :=
       let (r3, streams, ok) := readStreams sizes q.streams r2 []
       let q1 := { q with streams := streams }
       if !ok then (r3, q1, false) else
-      let m := (minQueueSize q.proto streams q.queues).getD 0
-      match parseStreams q.proto m streams q.queues with
+      match parseStreams q.proto streams q.queues with
       | none => (r3, q1, false)
       | some (streams', queues') =>
         let q2 := { q1 with streams := streams', queues := queues' }
@@ -274,8 +280,17 @@ def QR.advance (q : QR) (r : PR) : PR × QR × Bool :=
 
 /-- `pop_point` -/
 def QR.popPoint (q : QR) : Option (List Value × QR) :=
-  if q.queues.any List.isEmpty then none
-  else some (q.queues.map (fun l => l.headD (.integer 0)), { q with queues := q.queues.map List.tail })
+  if q.allConstant then
+    if q.queues.any List.isEmpty then none
+    else some (q.queues.map (fun l => l.headD (.integer 0)), { q with queues := q.queues.map List.tail })
+  else
+    -- constant records yield their value without a queue; the others pop one value each
+    let pairs := q.proto.zip q.queues
+    if pairs.any (fun (rec, qu) => (constOf rec.dt).isNone && qu.isEmpty) then none
+    else some (pairs.map (fun (rec, qu) => match constOf rec.dt with
+                | some v => v
+                | none => qu.headD (.integer 0)),
+               { q with queues := pairs.map (fun (rec, qu) => if (constOf rec.dt).isSome then qu else qu.tail) })
 
 /-! ### raw iterator -/
 
